@@ -222,6 +222,29 @@ impl Ctx {
     }
 }
 
+/// Number of OS threads of this process (from /proc/self/stat).
+pub fn num_threads() -> usize {
+    let Ok(s) = std::fs::read_to_string("/proc/self/stat") else { return 0 };
+    // the command name may contain spaces; fields after the closing parenthesis
+    let Some(p) = s.rfind(')') else { return 0 };
+    s[p + 1..].split_whitespace().nth(17).and_then(|x| x.parse().ok()).unwrap_or(0)
+}
+
+/// Every manager owns a GC thread and a worker pool whose threads exit
+/// asynchronously after the manager is dropped. Checks that create a fresh
+/// manager per case call this first so that the process never holds more than a
+/// few dozen threads (the sandbox has pid_max = 32768 for all processes).
+pub fn throttle_threads() {
+    let mut spins = 0u32;
+    while num_threads() > 48 {
+        std::thread::sleep(std::time::Duration::from_micros(if spins < 50 { 100 } else { 2000 }));
+        spins += 1;
+        if spins > 20000 {
+            break;
+        }
+    }
+}
+
 pub fn fx(data: &[u64]) -> u64 {
     // FNV-1a over the words; deterministic across runs
     let mut h: u64 = 0xcbf29ce484222325;
